@@ -69,7 +69,11 @@ HostBad(e) ==
                     ELSE [Parsed(e) EXCEPT !.path = ""] # [Expect(x) EXCEPT !.path = ""] \/ e.path = "",
                    "components: NewHost components differ">> >>)
 
-MutantBad(e) == IF e.ok = 0 THEN "" ELSE First(Laws(e))
+\* an accepted string has no character outside the alphabet of the grammar (e.alien is computed by the
+\* driver, character by character, without regular expressions)
+MutantBad(e) == IF e.ok = 0 THEN ""
+                ELSE IF e.alien = 1 THEN "grammar: string with a character outside the alphabet accepted"
+                ELSE First(Laws(e))
 
 TInit == l = 1 /\ bad = ""
 TNext ==
